@@ -66,7 +66,9 @@ theorem inTable_isAtomTy (t : Ty) (h : t.inTable = true) : t.isAtomTy = true := 
   cases t <;> simp_all [Ty.isAtomTy, enum_not_inTable]
 
 /-- the modelled types that have an entry in the priority table -/
-def tableTys : List Ty := [.int, .bool, .float, .decimal, .str, .qname, .xmlDate, .xmlTime, .xmlDateTime]
+def tableTys : List Ty :=
+  [.int, .bool, .float, .decimal, .str, .qname, .xmlDate, .xmlTime, .xmlDateTime, .xmlDuration, .xmlPeriod,
+   .pyDate, .pyTime, .pyDateTime]
 
 theorem inTable_mem (t : Ty) (h : t.inTable = true) : t ∈ tableTys := by
   cases t <;> first
